@@ -11,6 +11,11 @@ import random as _random
 
 import numpy as np
 
+
+def _elements_of(a):
+    tab = [str(e) for e in a.atom_type_elements]
+    return [tab[int(t)] for t in a.atom_types]
+
 LOG = []
 COUNTS = {}
 RECORD = True
@@ -152,7 +157,7 @@ def install():
         idx, pos, quats = res
         emit("find.ret", matches=[tuple(int(i) for i in m) for m in idx], positions=np.array(pos, dtype=float, copy=True),
              quats=quats, atol=atol, hints=(axisp1_idx, axisp2_idx, opoint_idx),
-             pattern_positions=np.array(pattern.positions, dtype=float, copy=True), pattern_elements=list(pattern.elements))
+             pattern_positions=np.array(pattern.positions, dtype=float, copy=True), pattern_elements=_elements_of(pattern))
         if return_positions_and_quats:
             return res
         return idx
@@ -190,7 +195,7 @@ def install():
         emit("extend.call", n_self=len(self), n_other=len(other), offsets=None if offsets is None else tuple(int(x) for x in offsets),
              index_map={int(k): int(v) for k, v in dict(structure_index_map).items()},
              other_positions=np.array(other.positions, dtype=float, copy=True) if RECORD else None,
-             other_elements=list(other.elements) if RECORD else None)
+             other_elements=_elements_of(other) if RECORD else None)
         r = real_extend(self, other, offsets=offsets, structure_index_map=structure_index_map, verbose=verbose)
         emit("extend.ret", n_self=len(self))
         contracts.check_atoms_consistent(self, "Atoms.extend")
